@@ -31,8 +31,9 @@ const (
 	SizeofHOBGenericHeader = 8
 	// SizeofHOBGUID is the size of the GUID HOB header prior to associated data.
 	SizeofHOBGUID = SizeofHOBGenericHeader + 16
-	// MaxGUIDHOBDataSize is the maximum size of an EFI_HOB_GUID_TYPE's associated data.
-	MaxGUIDHOBDataSize = 0x10000 - SizeofHOBGUID
+	// MaxGUIDHOBDataSize is the maximum size of an EFI_HOB_GUID_TYPE's associated data: the largest
+	// 8-byte-aligned HOB length that fits the UINT16 HobLength field (0xFFF8) less the GUID HOB header.
+	MaxGUIDHOBDataSize = (0xFFFF &^ 0x7) - SizeofHOBGUID
 )
 
 // EFIResourceType is an enum type for resource descriptors.
